@@ -147,7 +147,7 @@ def run(tier, seed):
             mf = os.path.join(vlib.sub("scn"), "merge-fault.ndjson")
             with open(mscen) as f, open(mf, "w") as g:
                 for i, line in enumerate(f):
-                    if i % (5 if tier == "quick" else 1) == seed % (5 if tier == "quick" else 1):
+                    if i % (10 if tier == "quick" else 1) == seed % (10 if tier == "quick" else 1):
                         g.write(line)
             o = vlib.replay("mergefault", mf, env={"VERIF_SEED": str(seed)}, timeout=60)
             vlib.absorb_replay(v, o, "mergefault", mf, crash_sig=lambda sc, t: "merge/fault/crash")
